@@ -256,8 +256,13 @@ func ruleLQClaimTx(r *core.Reporter) {
 			continue
 		}
 		nRows++
-		if v != rows {
-			okRet = false
+		// through an inlined helper the rows arrive as phi(nil on its error exits, rows)
+		var leaves []ssa.Value
+		phiLeaves(v, map[ssa.Value]bool{}, &leaves)
+		for _, l := range leaves {
+			if !ir.IsNilConst(l) && l != rows {
+				okRet = false
+			}
 		}
 		if _, g := ir.GuardedBy(fn, ir.Entry(fn), ret, true, func(a ir.Atom) bool {
 			return a.V == nil && a.Op == token.EQL && ((a.X == ssa.Value(commit) && ir.IsNilConst(a.Y)) || (a.Y == ssa.Value(commit) && ir.IsNilConst(a.X)))
